@@ -184,7 +184,7 @@ class Engine:
         self.depth = 0
         self.cur_model = None
         self.pc = []
-        self.decisions = []; self.dpos = 0; self.pending = []; self.stop_at = None; self.prefer = []
+        self.decisions = []; self.dpos = 0; self.pending = []; self.stop_at = None; self.prefer = []; self.cstack = []
         self.index()
         import models
         self.MODELS = models.MODELS; self.TRAIT_MODELS = models.TRAIT_MODELS
@@ -393,7 +393,7 @@ class Engine:
         base_len = len(prefix or [])
         while self.pending:
             self.decisions = self.pending.pop(); self.dpos = 0; self.pc = []; self.cur_model = None
-            self.nchoice = 0; self.depth = 0
+            self.nchoice = 0; self.depth = 0; self.cstack = []
             self.path_steps = 0
             self.solver.push()
             try:
@@ -450,11 +450,22 @@ class Engine:
 
     # ---- calls
     def call(self, callee, args):
-        f = self.resolve(callee, args)
-        if callable(f):
-            self.models_used[f.__name__] = self.models_used.get(f.__name__, 0) + 1
-            return f(self, callee, args)
-        return self.exec_fn(f, args)
+        self.cstack.append(callee)
+        try:
+            f = self.resolve(callee, args)
+            if callable(f):
+                self.models_used[f.__name__] = self.models_used.get(f.__name__, 0) + 1
+                return f(self, callee, args)
+            return self.exec_fn(f, args)
+        finally:
+            self.cstack.pop()
+
+    def prim_from_stack(self):
+        """primitive type bound to a generic parameter by the nearest enclosing call site (e.g. Expr::value::<i32>)"""
+        for c in reversed(self.cstack[:-1]):
+            m = re.search(r'(?:::<|From<|Into<|^<)(&?(?:[iu](?:8|16|32|64|128|size)|bool|char|f32|f64|&str|str|std::string::String))\b', c)
+            if m: return m.group(1)
+        return None
 
     def call_closure(self, clo, args):
         """clo: closure Adt, FnItem, or reference to one; args: python list of argument values"""
@@ -483,9 +494,7 @@ class Engine:
         return f
 
     def runtime_type(self, v):
-        while type(v) is Ref:
-            if v.kind == 'rc': return 'SeaRc'
-            v = v.cell.v
+        while type(v) is Ref: v = v.cell.v
         t = type(v)
         if t is Adt: return base(v.ty) if not v.ty.startswith('{') else v.ty
         if t is SymEnum: return v.ty
@@ -521,6 +530,18 @@ class Engine:
                 # closures and fn items called through Fn* traits
                 if trb in ('FnOnce', 'FnMut', 'Fn') and meth in ('call_once', 'call_mut', 'call'):
                     return self.models.m_call_closure, True
+                if ty.startswith('&') and trb in ('PartialEq', 'PartialOrd', 'Ord', 'Eq', 'Display', 'Debug', 'Hash', 'Iden', 'Write', 'Iterator') \
+                        and args and type(args[0]) is Ref and type(args[0].cell.v) is Ref and args[0].cell.v.kind == '&':
+                    inner_ty = re.sub(r"^&(?:'\w+ )?(?:mut )?", '', ty)
+                    inner_callee = '<%s as %s>::%s' % (inner_ty, re.sub(r"<&(?:'\w+ )?(?:mut )?", '<', trait, 1) if trb in ('PartialEq', 'PartialOrd') else trait, meth)
+                    both = trb in ('PartialEq', 'PartialOrd', 'Ord')
+                    def fwd(e, c, a, inner_callee=inner_callee, both=both):
+                        a = list(a)
+                        a[0] = a[0].cell.v
+                        if both and len(a) > 1 and type(a[1]) is Ref and type(a[1].cell.v) is Ref: a[1] = a[1].cell.v
+                        return e.call(inner_callee, a)
+                    fwd.__name__ = 'm_ref_forward'
+                    return fwd, False
                 dyn = ty.startswith('&') or is_generic_name(tb)
                 rt = self.runtime_type(args[0]) if (dyn and args) else None
                 if trb == 'Into' or trb == 'From':
@@ -549,6 +570,11 @@ class Engine:
                 if (tb, None, meth) in self.impls: return self.impls[(tb, None, meth)], True
         for pat, fn in self.MODELS:
             if pat.match(callee): return fn, True
+        m = re.search(r'<impl ([^<>]*(?:<[^<>]*>)?[^<>]*)>::(\w+)$', c)
+        if m:
+            mm = re.match(r'(?:(.*) for )?(.*)$', m.group(1))
+            key = (base(mm.group(2)), base(mm.group(1)) if mm.group(1) else None, m.group(2))
+            if key in self.impls: return self.impls[key], True
         if callee in self.byname: return self.byname[callee], True
         if c in self.byname: return self.byname[c], True
         parts = split_path(c)
@@ -568,7 +594,9 @@ class Engine:
             src_static = base(ty)
             src = src_static if not is_generic_name(src_static) and not ty.startswith('&') else None
             if src is None and args: src = self.runtime_type(args[0])
-            if src is None: src = src_static
+            if src is None:
+                src = self.prim_from_stack() or src_static
+                if src: src = base(src)
         else:
             tgt = base(ty)
             a = generic_args(trait)
@@ -576,6 +604,9 @@ class Engine:
             src = src_static if not is_generic_name(src_static) else (self.runtime_type(args[0]) if args else None)
             if is_generic_name(tgt): return None
         if tgt is None or is_generic_name(tgt): return None
+        if trb == 'Into':
+            k2 = (src, 'Into<%s>' % tgt, 'into')
+            if k2 in self.impls: return self.impls[k2]
         if src == 'String' and tgt == 'String': return self.models.m_ident
         if src in ('str', 'String') and tgt == 'String': return self.models.m_str_into_string
         key = (tgt, 'From<%s>' % src, 'from')
@@ -927,6 +958,9 @@ class Engine:
         # generic path: strip turbofish
         c2 = strip_generics(c)
         if c2 != c and c2 in self.fns: return self.exec_fn(self.fns[c2], [])
+        parts = split_path(c2)
+        if len(parts) >= 2 and base(parts[-2]) in self.variants and parts[-1] in self.variants[base(parts[-2])]:
+            return Adt(base(parts[-2]), parts[-1], [])
         mv = self.models.const_model(c)
         if mv is not None: return mv
         raise Unsupported('const ' + c)
